@@ -1,111 +1,3 @@
-(* C01/Check.v — comparison functions used only by the correspondence check (K).
-   A case = initial world (built from the real initial population), an operation list and one
-   observation per state (initial state included).  For every state the model must agree with the
-   implementation on:
-     - the alias partition over all owned slots of the population (exact: bijection loc <-> class),
-     - the value partition (refinement: equal model content ids => equal observed values; the map
-       content id -> observed value class is threaded through the WHOLE run, so "the model says this
-       cell was not written" implies "its value did not change"),
-     - per agent: index, mutation label, architecture ids, optimizer<->parameter identity, lr,
-       hyper-parameter values, block sizes.
-   The initial world must satisfy the hypothesis of the theorems ([sep_b]). *)
-From Coq Require Import List NArith QArith Bool FMapPositive.
-From AgileV Require Import Evo.Heap Evo.Evo.
-Import ListNotations.
-Open Scope N_scope.
-
-Record aobs := mkAObs { ao_index : N; ao_mut : N; ao_archs : list N; ao_opts : list (bool * Q);
-                        ao_hps : list Q; ao_counts : list nat }.
-Record obs := mkObs { ob_alias : list N; ob_vals : list N; ob_agents : list aobs }.
-
-Definition heap_of (l : list (N * N)) : heap := fold_left (fun h p => upd h (fst p) (snd p)) l hempty.
-
-Fixpoint list_eqb {A B} (f : A -> B -> bool) (l : list A) (m : list B) : bool :=
-  match l, m with
-  | [], [] => true
-  | a :: r, b :: s => f a b && list_eqb f r s
-  | _, _ => false
-  end.
-
-(* the optimizer references exactly the exposed parameters of its networks (order irrelevant:
-   multi-agent optimizers list them agent by agent) *)
-Definition same_set (l m : list N) : bool :=
-  Nat.eqb (length l) (length m) && forallb (fun x => mem x m) l && forallb (fun x => mem x l) m.
-Definition refs_ok (a : agent) (o : opt) : bool :=
-  match find_optcfg (a_reg a) (o_name o) with
-  | Some c => same_set (o_refs o) (want_refs a c)
-  | None => false
-  end.
-
-Definition agent_ok (a : agent) (o : aobs) : bool :=
-  N.eqb (a_index a) (ao_index o) && N.eqb (a_mut a) (ao_mut o) &&
-  list_eqb N.eqb (map snd (a_arch a)) (ao_archs o) &&
-  list_eqb (fun x p => Bool.eqb (refs_ok a x) (fst p) && Qeq_bool (o_lr x) (snd p)) (a_opts a) (ao_opts o) &&
-  list_eqb Qeq_bool (map snd (a_hps a)) (ao_hps o) &&
-  list_eqb Nat.eqb (map (fun kv => length (snd kv)) (a_blocks a)) (ao_counts o).
-
-Fixpoint bij (ls cs : list N) (m1 m2 : PositiveMap.t N) : bool :=
-  match ls, cs with
-  | [], [] => true
-  | l :: lr, c :: cr =>
-      let k1 := N.succ_pos l in
-      let k2 := N.succ_pos c in
-      match PositiveMap.find k1 m1, PositiveMap.find k2 m2 with
-      | Some c', Some l' => N.eqb c c' && N.eqb l l' && bij lr cr m1 m2
-      | None, None => bij lr cr (PositiveMap.add k1 c m1) (PositiveMap.add k2 l m2)
-      | _, _ => false
-      end
-  | _, _ => false
-  end.
-
-Fixpoint valref (cs vs : list N) (m : PositiveMap.t N) : option (PositiveMap.t N) :=
-  match cs, vs with
-  | [], [] => Some m
-  | c :: cr, v :: vr =>
-      match PositiveMap.find (N.succ_pos c) m with
-      | Some v' => if N.eqb v v' then valref cr vr m else None
-      | None => valref cr vr (PositiveMap.add (N.succ_pos c) v m)
-      end
-  | _, _ => None
-  end.
-
-Definition state_ok (w : world) (o : obs) (m : PositiveMap.t N) : option (PositiveMap.t N) :=
-  if list_eqb agent_ok (w_pop w) (ob_agents o)
-     && bij (all_locs w) (ob_alias o) (PositiveMap.empty N) (PositiveMap.empty N)
-  then valref (map (rd (w_store w)) (all_locs w)) (ob_vals o) m
-  else None.
-
-Fixpoint check_steps (w : world) (ops : list op) (os : list obs) (m : PositiveMap.t N) : bool :=
-  match ops, os with
-  | [], [] => true
-  | o :: r, ob :: obr =>
-      let w' := step w o in
-      match state_ok w' ob m with
-      | Some m' => check_steps w' r obr m'
-      | None => false
-      end
-  | _, _ => false
-  end.
-
-Definition check_run (w : world) (ops : list op) (os : list obs) : bool :=
-  match os with
-  | [] => false
-  | o0 :: r =>
-      sep_b w &&
-      match state_ok w o0 (PositiveMap.empty N) with
-      | Some m => check_steps w ops r m
-      | None => false
-      end
-  end.
-
-(* index of the first state on which model and implementation disagree (diagnostics only) *)
-Fixpoint first_bad (w : world) (ops : list op) (os : list obs) (m : PositiveMap.t N) (k : nat) : nat :=
-  match ops, os with
-  | o :: r, ob :: obr =>
-      let w' := step w o in
-      match state_ok w' ob m with
-      | Some m' => first_bad w' r obr m' (S k)
-      | None => k
-      end
-  | _, _ => 9999%nat
-  end.
+(* C01/Check.v — the correspondence check of C01 is the generic Evo shadow-execution check
+   (alias partition, value refinement, structure, per state of the history): see Evo/EvoCheck.v. *)
+From AgileV Require Export Evo.EvoCheck.
